@@ -15,7 +15,16 @@ CFG = {
             "boundary length fields x both byte orders x {exact, one byte short, one byte long, followed by an empty "
             "zero-length sub-message}, every truncation of a 3-sub-message datagram, 4 values at each of its first 32 "
             "bytes, every byte string over {00,01,02} of length <= 6 (quick) / <= 8 (thorough) behind a valid header, hand-built non-well-formed packets, the size limits (length field 65535, UDP maximum 65507, a 70000-byte "
-            "zero-length payload); then per n: one random well-formed packet (0..5 sub-messages, arbitrary id/flags, payload "
+            "zero-length payload); the fixed-value field family (the 4 magic bytes are the only constant the decoder checks - "
+            "every other byte is recorded in the packet and written back): EVERY other value 0..255 at each magic byte x "
+            "{header only, one exact-fit sub-message, three sub-messages with zero-length tail, empty zero-length sub-message} "
+            "(4 x 255 x 4), the product of the per-byte near-miss sets (other letter case, code points at distance 1/2/5 either "
+            "side, the letters R T P S X M C; 12-13 values per byte) restricted to <= 2 differing bytes (quick) / whole product "
+            "(thorough, ~27000 words) x {header only, one sub-message}, sibling words (RTPX RTMP RTSP RTCP RTP\\0 RTP2 DDSI, "
+            "all 23 permutations, reversed/swapped/rotated/shifted/high-bit/complemented) x the 4 remainders, all 6 position "
+            "pairs x all pairs of upper-case letters (quick) / letters and digits (thorough), the magic preceded by 1..4 bytes "
+            "and with one byte deleted; per n/4 a random well-formed packet with one magic byte replaced by a random other "
+            "value and one with a random near-miss word (oracle: reject, or re-encoding reproduces the datagram); then per n: one random well-formed packet (0..5 sub-messages, arbitrary id/flags, payload "
             "0..65535 skewed small, last one zero-length with p=1/3) encoded by the spec (`enc`: implementation must return "
             "exactly that packet) and one single-edit mutation (truncate, overwrite, insert, delete, append, flip the "
             "endianness bit, zero a length byte) of another (`raw`); per n/4: an arbitrary (not nec. well-formed) packet "
